@@ -337,6 +337,16 @@ Definition known_c09_early_final (cs : list ncase) : list nat :=
 (* "a process that already has a start or stop job planned is left to that job": the Starter / Stopper are told about the
    lost instances (JobsInvalidation, which removes from the lost set the processes they take care of) BEFORE the Master
    hands the remaining lost processes to the failure handler (FailureJob) in the same evaluation. *)
+(* the Starter is busy at the first evaluation of the event: the evaluation that acknowledges the instances declared
+   FAILED by the timer. In the abstraction of the process plane, a busy Starter has the start of every lost process
+   pending on the lost instance: it takes them all out of the lost set (they are "left to that job") *)
+Definition first_starting (e : event) : bool :=
+  let orcs := match e with
+              | LocalTick _ _ o | PeerState _ _ _ _ _ _ o | ProcCrash _ _ _ o | ReqRestart _ o | ReqShutdown _ o
+              | ReqEndSync _ _ o => o
+              | _ => []
+              end in
+  match orcs with o :: _ => or_starting o | [] => false end.
 Fixpoint c06_order (seen_failure : bool) (outs : list output) : bool :=
   match outs with
   | [] => true
@@ -346,8 +356,10 @@ Fixpoint c06_order (seen_failure : bool) (outs : list output) : bool :=
   | _ :: r => c06_order seen_failure r
   end.
 (* every process that was running only on a lost instance is handed to the failure handler by the Master in a working
-   state: the set of instances hosting such a process is recomputed from the EVENTS (an ALL_INFO snapshot with such a
-   process, accepted while the instance is CHECKING) *)
+   state -- unless the Starter was busy at that evaluation: then it filtered them out of the lost set and the failure
+   handler must NOT be fed with them (no running failure strategy on a process that was merely starting). The set of
+   instances hosting such a process is recomputed from the EVENTS (an ALL_INFO snapshot with such a process, accepted
+   while the instance is CHECKING) *)
 Fixpoint c06_loss_walk (me : Z) (hosting : list Z) (prev_fsm prev_master : Z) (prev_ist : list (Z * Z * Z * Z * Z))
                        (evs : list event) (obss : list obs) : bool :=
   match evs, obss with
@@ -373,7 +385,8 @@ Fixpoint c06_loss_walk (me : Z) (hosting : list Z) (prev_fsm prev_master : Z) (p
               || negb (Z.eqb prev_master me && Z.eqb (obs_master o) me)
               || negb (Z.eqb prev_fsm 3 || Z.eqb prev_fsm 4 || Z.eqb prev_fsm 5)
               || negb (Z.eqb (obs_fsm o) prev_fsm)
-              || existsb (fun x => match x with FailureJob => true | _ => false end) (obs_outs o)
+              || Bool.eqb (existsb (fun x => match x with FailureJob => true | _ => false end) (obs_outs o))
+                          (negb (first_starting e))
        end)
       && c06_loss_walk me (filter (fun j => negb (zmem j lost)) hosting1) (obs_fsm o) (obs_master o) (obs_ist o) re ro
   | _, _ => true
